@@ -253,6 +253,26 @@ def run(prop, tier, replay):
             elif r["a"] == "DbgIo" and (r["cycleErrors"] or r["nextCycleErrors"]):
                 rep.violation(f"dbgwrite:io:cycle-fault:{r['address']}", {"dbgwrite": True, "event": r},
                               f"control request {r['via']} {r['address']} := '{r['text']}': the next cycle fails with {r['cycleErrors'] or r['nextCycleErrors']}")
+    conf_rows = []
+    if prop == "C02" and not replay:
+        # the shipped conformance runner: the real `trust-runtime conformance --update-expected` records generated cases
+        # (inputs the program consumes, repeated and skipped steps, clock steps, restarts); each recorded trace must be
+        # the one the same case gives when driven directly through TestHarness (the interface StCoreTrace judges)
+        from common import build_repo_bin
+        rtbin = build_repo_bin("trust-runtime", "trust-runtime")
+        n_conf = 60 if tier == "quick" else 900
+        for off in range(0, n_conf, 300):
+            cf = work / f"confcli.{off}.ndjson"
+            tpv(["conf-run", "--bin", rtbin, "--seed", int(seed()) + off, "--runs", min(300, n_conf - off), "--work", work / "confcli-w", "--out", cf], timeout=1800)
+            conf_rows += read_ndjson(cf)
+        if sum(1 for r in conf_rows if r["recorded"]) < n_conf * 9 // 10:
+            raise ToolError("conformance-runner stage: the binary recorded fewer than 90 % of the generated cases:\n" + json.dumps(next((r for r in conf_rows if not r["recorded"]), {}))[:800])
+        shown = 0
+        for r in conf_rows:
+            if not r["same"] and shown < 20:
+                shown += 1
+                rep.violation("conformance-cli:recorded-trace-differs-from-the-direct-run", {"confcli": True, "case": r["case"], "diff": r["diff"]},
+                              f"trust-runtime conformance, case {r['id']}: {'; '.join(r['diff'][:3])}")
     mesh_rows = []
     if prop == "C03" and not replay:
         # values that arrive over the mesh (a peer publishes; [runtime.mesh.subscribe] of a real runtime.toml maps them to globals)
@@ -279,7 +299,7 @@ def run(prop, tier, replay):
     cov = {
         "states": max(mc["distinct"], 1) + len(rows), "transitions": max(mc["generated"], 1) + len(rows),
         "traces_validated_against_impl": len(runs),
-        "programs_typed_core": len(runs), "cycles_validated": ncyc, "programs_wide_generator": len(wide_rows), "operator_matrix_cases_full_width": len(op_rows), "debugger_writes_through_control_endpoint": len(dw_rows), "mesh_publishes_to_subscribed_globals": len(mesh_rows), "feature_programs_accepted": sum(1 for r in feat_rows if r["accepted"]), "feature_families": len({r["family"] for r in feat_rows if r["accepted"]}), "stdlib_functions_called": sum(1 for r in std_rows if r["okClasses"] > 0), "stdlib_calls": sum(r["calls"] for r in std_rows),
+        "programs_typed_core": len(runs), "cycles_validated": ncyc, "programs_wide_generator": len(wide_rows), "operator_matrix_cases_full_width": len(op_rows), "debugger_writes_through_control_endpoint": len(dw_rows), "mesh_publishes_to_subscribed_globals": len(mesh_rows), "conformance_runner_cases_recorded_by_the_binary": sum(1 for r in conf_rows if r["recorded"]), "feature_programs_accepted": sum(1 for r in feat_rows if r["accepted"]), "feature_families": len({r["family"] for r in feat_rows if r["accepted"]}), "stdlib_functions_called": sum(1 for r in std_rows if r["okClasses"] > 0), "stdlib_calls": sum(r["calls"] for r in std_rows),
         "profiles": {p: sum(1 for r in runs if scripts[r[0]["script"]]["profile"] == p) for p in ("matrix", "strict", "natural", "pous", "case")},
         "outcomes": outcomes,
         "runtime_cycle_runs_tag_checked": rc_runs, "runtime_cycle_events_tag_checked": rc_events,
